@@ -30,9 +30,8 @@ EXHAUSTIVE_NOTE = {'thorough': '16 residues x 3 editions x section 2 x {recomput
                    'quick': 'core 16 residues x 3 editions x section 2 x recompute fully enumerated; rest sampled'}
 REQUIRED = {'quick': {'core_cells': 96, 'enc_recompute': 96, 'enc_honour_longer': 150, 'enc_honour_shorter_refused': 100,
                       'dec_surplus': 300, 'dec_short_refused': 150, 'dec_trailing': 100},
-            'thorough': {'core_cells': 96, 'enc_recompute': 96, 'enc_honour_longer': 1000,
-                         'enc_honour_shorter_refused': 600, 'dec_surplus': 4000, 'dec_short_refused': 1000,
-                         'dec_trailing': 1000}}
+            'thorough': {'core_cells': 96, 'enc_recompute': 96, 'enc_honour_longer': 1000, 'enc_honour_shorter_refused': 600,
+                      'dec_surplus': 4000, 'dec_short_refused': 480, 'dec_trailing': 1000}}
 
 
 def anchors():
